@@ -25,6 +25,8 @@ CONFIGS = {
     "c-string": ["-c", "-fnames", "-string"],
     "c-string-promiscuous": ["-c", "-fnames", "-string", "-promiscuous"],
     "c-promiscuous": ["-c", "-fnames", "-promiscuous"],
+    "python": ["-python", "-fnames"],
+    "python-promiscuous": ["-python", "-fnames", "-promiscuous"],
 }
 
 
@@ -39,7 +41,7 @@ def run_case(ctx, case):
         # without -string a std::string crosses the wrapper as an opaque handle the client cannot construct:
         # those libraries are generated without string types
         lib = libgen.generate(random.Random(case["libseed"]), "liba", size=case.get("size", 1.0), docs=False,
-                              strings="-string" in CONFIGS[case["cfg"]])
+                              strings="-string" in CONFIGS[case["cfg"]], arrays="-python" not in CONFIGS[case["cfg"]])
         lib.write(d)
         model = lib.model
     cfg = CONFIGS[case["cfg"]]
@@ -57,7 +59,7 @@ def run_case(ctx, case):
     dirs = libbuild.dirs_for(d)
     objs = []
     for src, o in ((p["oc"], "igate.o"), (os.path.join(d, "liba.cxx"), "lib.o")):
-        rc = genbuild.compile_obj(b, src, os.path.join(d, o), dirs=dirs, san=True, opt="-O1")
+        rc = genbuild.compile_obj(b, src, os.path.join(d, o), dirs=dirs, san=True, opt="-O1", python="-python" in cfg)
         if rc.rc != 0:
             # C03's subject; nothing can be called
             res.inconclusive = "generated code does not compile (see C03)"
@@ -75,7 +77,8 @@ def run_case(ctx, case):
     drv = os.path.join(core.VERIF, "vf", "drv_c.py")
     env = {"PYTHONMALLOC": "malloc", "ASAN_OPTIONS": core.SAN_ENV["ASAN_OPTIONS"] + ":verify_asan_link_order=0"}
     rr = core.run([sys.executable, drv, d, os.path.join(d, "dump.json"), os.path.join(d, "model.json"), so,
-                   str(case["drvseed"]), str(case.get("ncalls", 300)), "1" if "-string" in cfg else "0"],
+                   str(case["drvseed"]), str(case.get("ncalls", 300)), "1" if "-string" in cfg else "0",
+                   "python" if "-python" in cfg else "c"],
                   timeout=300, env=env, preload=genbuild.asan_preload())
     rcase = dict(id=case["id"], cfg=case["cfg"], drvseed=case["drvseed"], ncalls=case.get("ncalls", 300),
                  files=libgen.read_files(d))
